@@ -11,6 +11,7 @@
 #include <cstdint>
 #include <exception>
 #include <functional>
+#include <limits>
 #include <memory>
 #include <string> // std::basic_string
 #include <system_error>
@@ -1017,11 +1018,21 @@ namespace detail {
             }
             if (lhs.is_int64() && rhs.is_int64())
             {
-                return Json(((lhs.template as<int64_t>() / rhs.template as<int64_t>())), semantic_tag::none);
+                const int64_t divisor = rhs.template as<int64_t>();
+                if (divisor == 0 || (divisor == -1 && lhs.template as<int64_t>() == (std::numeric_limits<int64_t>::min)()))
+                {
+                    return Json::null(); // not representable: no result rather than a trap
+                }
+                return Json(((lhs.template as<int64_t>() / divisor)), semantic_tag::none);
             }
             if (lhs.is_uint64() && rhs.is_uint64())
             {
-                return Json((lhs.template as<uint64_t>() / rhs.template as<uint64_t>()), semantic_tag::none);
+                const uint64_t divisor = rhs.template as<uint64_t>();
+                if (divisor == 0)
+                {
+                    return Json::null();
+                }
+                return Json((lhs.template as<uint64_t>() / divisor), semantic_tag::none);
             }
             return Json((lhs.as_double() / rhs.as_double()), semantic_tag::none);
         }
@@ -1060,11 +1071,21 @@ namespace detail {
             }
             if (lhs.is_int64() && rhs.is_int64())
             {
-                return Json(((lhs.template as<int64_t>() % rhs.template as<int64_t>())), semantic_tag::none);
+                const int64_t divisor = rhs.template as<int64_t>();
+                if (divisor == 0 || (divisor == -1 && lhs.template as<int64_t>() == (std::numeric_limits<int64_t>::min)()))
+                {
+                    return Json::null(); // not representable: no result rather than a trap
+                }
+                return Json(((lhs.template as<int64_t>() % divisor)), semantic_tag::none);
             }
             if (lhs.is_uint64() && rhs.is_uint64())
             {
-                return Json((lhs.template as<uint64_t>() % rhs.template as<uint64_t>()), semantic_tag::none);
+                const uint64_t divisor = rhs.template as<uint64_t>();
+                if (divisor == 0)
+                {
+                    return Json::null();
+                }
+                return Json((lhs.template as<uint64_t>() % divisor), semantic_tag::none);
             }
             return Json(fmod(lhs.as_double(), rhs.as_double()), semantic_tag::none);
         }
